@@ -31,7 +31,7 @@ PLAN = {
     "thorough": {"shards": 16, "shard_timeout": 3600, "case_timeout": 60, "cases": 1000000, "max_case_timeouts": 10},
 }
 THRESHOLDS = {
-    "quick": {"contract_evaluations": 100000, "impl:native": 5000, "impl:ge": 5000, "impl:stack": 5000, "impl:sge": 5000, "impl:dsge": 1000, "exhaustive_spaces": 100, "decider_random_int": 20000, "wide_ranges": 3000, "zero_weight_offers": 2000, "same_seed_streams": 20, "decider_widths_enumerated": 3000, "weighted_enumerations_with_reused_list": 10, "pops_from_lists_with_equal_but_distinct_elements": 500},
+    "quick": {"contract_evaluations": 100000, "impl:native": 5000, "impl:ge": 5000, "impl:stack": 5000, "impl:sge": 5000, "impl:dsge": 1000, "exhaustive_spaces": 100, "decider_random_int": 20000, "wide_ranges": 3000, "zero_weight_offers": 2000, "same_seed_streams": 20, "decider_widths_enumerated": 3000, "weighted_enumerations_with_reused_list": 10, "pops_from_lists_with_equal_but_distinct_elements": 500, "gene_domain_weighted_draws": 20000, "gene_domain:dsge:fresh": 2, "gene_domain:stack:mutated": 2},
     "thorough": {"contract_evaluations": 2000000, "exhaustive_spaces": 2000, "decider_random_int": 400000},
 }
 
@@ -257,6 +257,9 @@ def gen_cases(tier, seed):
     kinds = ["native", "ge", "stack", "sge", "dsge", "exhaustive", "decider", "dsge-decider", "seeds"]
     for i in range(n):
         yield {"kind": kinds[i % len(kinds)], "seed": rng.randrange(10**9), "i": i}
+    for i in range(8 if tier == "quick" else 200):  # weighted choices answered from the genes the representations themselves write
+        for rk in ("ge", "sge", "dsge", "stack"):
+            yield {"kind": "gene-domain", "repr": rk, "mutated": i % 2 == 1, "seed": rng.randrange(10**9), "i": i}
     # the deciders' wide-range draw has a small decision tree (n, e, sign): enumerate ALL draws for EVERY width of a band
     top = 2400 if tier == "quick" else 40000
     for lo in range(1001, top, 50):
@@ -348,6 +351,76 @@ def run_case(case, rec):
         same_seed(rng, rec)
     elif kind == "decider-exhaustive":
         decider_exhaustive(case, rec)
+    elif kind == "gene-domain":
+        gene_domain(case, rng, rec)
+
+
+def gene_domain(case, rng, rec):
+    """'Selects options in proportion to their weights ... including the genotype-backed sources used for mapping': the
+    genes are the randomness there, so the proportion is the one over the genes that the representation ITSELF writes -
+    fresh ones (create_genotype; dynamic SGE: on-demand extension) and mutated ones. Decided with a margin no chance
+    leaves: over N >= 1500 draws an option of weight share p must be taken at least p/2 * N and at most (1+p)/2 * N times."""
+    from collections import Counter
+
+    from geneticengine.random.sources import NativeRandomSource
+    from geneticengine.representations.grammatical_evolution import dynamic_structured_ge as D
+    from geneticengine.representations.grammatical_evolution import ge as GE
+    from geneticengine.representations.grammatical_evolution import structured_ge as SGE
+    from geneticengine.representations import stackgggp as ST
+    from gev import evo
+
+    rk = case["repr"]
+    REC["impl"] = rk
+    g, _ = evo.tiny()
+    native = NativeRandomSource(case["seed"] % 10**6)
+    L = 48
+    if rk == "ge":
+        rep = GE.GrammaticalEvolutionRepresentation(g, None, gene_length=L)
+    elif rk == "sge":
+        rep = SGE.StructuredGrammaticalEvolutionRepresentation(g, None, gene_length=L)
+    elif rk == "stack":
+        rep = ST.StackBasedGGGPRepresentation(g, L)
+    else:
+        rep = D.DynamicStructuredGrammaticalEvolutionRepresentation(g, max_depth=5)
+    w = rng.choice([[0.5, 0.5], [0.25, 0.75], [0.2, 0.3, 0.5], [1, 1], [1, 2, 1], [0.9, 0.1]])
+    opts = [f"o{i}" for i in range(len(w))]
+    got: Counter = Counter()
+    n = 0
+    for _ in range(40):
+        geno = rep.create_genotype(native)
+        if case["mutated"] and rk != "dsge":
+            for _ in range(6 * L):  # nearly every gene has been written by the mutation operator
+                geno = rep.mutate(native, geno)
+        if rk == "ge":
+            src = GE.ListWrapper(geno.dna)
+        elif rk == "stack":
+            src = ST.ListWrapper(geno.dna)
+        elif rk == "sge":
+            if case["mutated"]:
+                for _ in range(4 * L):  # the mutation picks one of many gene lists (some of the genes read below are mutated ones)
+                    geno = rep.mutate(native, geno)
+            src = SGE.StructuredListWrapper(geno.dna)
+        else:
+            src = D.GenotypeBackedSource(D.DynamicSGEDecider(geno, g, 5))
+            if case["mutated"]:
+                for _ in range(L):
+                    src.randint(0, 1)  # extend, then let the mutation operator rewrite the genes, then read them again
+                for _ in range(6 * L):
+                    geno = rep.mutate(native, geno)
+                src = D.GenotypeBackedSource(D.DynamicSGEDecider(geno, g, 5))
+        for _ in range(L - 2):
+            got[src.choice_weighted(list(opts), list(w))] += 1
+            n += 1
+    rec.count("gene_domain_weighted_draws", n)
+    rec.count("evaluations", n)
+    rec.count(f"gene_domain:{rk}:{'mutated' if case['mutated'] else 'fresh'}")
+    tot = sum(w)
+    for o, wi in zip(opts, w):
+        p = wi / tot
+        if not (p / 2 * n <= got[o] <= (1 + p) / 2 * n):
+            _viol(f"choice_weighted-ignores-weights-over-the-representation's-own-genes:{rk}:{'mutated' if case['mutated'] else 'fresh'}-genes", {"weights": w, "draws": n, "selection_counts": dict(got), "option": o, "weight_share": p})
+            break
+    rec.sample({"repr": rk, "genes": "mutated" if case["mutated"] else "fresh", "weights": w, "selection_counts": dict(got)}, cap=8)
 
 
 def exhaustive(rng, rec):
